@@ -427,7 +427,7 @@ class Interp:
             except BaseException as e:  # noqa: BLE001
                 errs.append(e)
 
-        ths = [threading.Thread(target=run, args=(t,), daemon=True) for t in range(T)]
+        ths = [threading.Thread(target=run, args=(t,), daemon=True, name="ut-%d" % t) for t in range(T)]
         for th in ths:
             th.start()
         for th in ths:
